@@ -22,6 +22,8 @@ pub enum WeightMode {
     Default,
     /// weight(k, _, ttl) = table[k % len] + 24 if ttl
     Table(Vec<i64>),
+    /// weight(k, v, ttl) = table[(k + low 16 bits of v) % len] + 24 if ttl: a new value changes the computed weight
+    ByValue(Vec<i64>),
 }
 
 #[derive(Clone, Debug, PartialEq, Eq, Hash, Serialize, Deserialize)]
@@ -44,10 +46,11 @@ pub struct Cfg {
 }
 
 impl Cfg {
-    pub fn weight_fn(&self, key: u64, ttl: bool) -> i64 {
+    pub fn weight_fn(&self, key: u64, value: u64, ttl: bool) -> i64 {
         match &self.weight_mode {
             WeightMode::Default => if ttl { 64 } else { 40 },
             WeightMode::Table(table) => table[(key as usize) % table.len()] + if ttl { 24 } else { 0 },
+            WeightMode::ByValue(table) => table[((key + (value & 0xffff)) as usize) % table.len()] + if ttl { 24 } else { 0 },
         }
     }
 
@@ -364,7 +367,7 @@ pub fn op_strategy(params: &GenParams) -> BoxedStrategy<Op> {
 
 pub fn cfg_strategy(params: &GenParams) -> BoxedStrategy<Cfg> {
     let table = prop::collection::vec(prop_oneof![3 => 1i64..=30, 1 => Just(24i64), 1 => Just(25i64), 1 => 30i64..=80], 1..=4);
-    let weight_mode = prop_oneof![1 => Just(WeightMode::Default), 2 => table.prop_map(WeightMode::Table)];
+    let weight_mode = prop_oneof![1 => Just(WeightMode::Default), 2 => table.prop_map(WeightMode::Table), 1 => prop::collection::vec(prop_oneof![3 => 1i64..=30, 1 => 30i64..=80], 3..=7).prop_map(WeightMode::ByValue)];
     (
         pick(&params.counters), pick(&params.limits), pick(&params.shards), pick(&params.cmd_bufs),
         (1usize..=3, 1usize..=8), pick(&params.ticks_us), pick(&params.hash_modes), weight_mode,
